@@ -30,6 +30,7 @@ import (
 	"bufio"
 	"context"
 	"encoding/json"
+	"errors"
 	"fmt"
 	"math/rand"
 	"os"
@@ -196,6 +197,21 @@ func neighbour(capacity int) (ok bool) {
 			return false
 		}
 	}
+	// and one whose elements are interface values, the nil interface among them: a value like any other
+	ectx, ecancel := context.WithCancel(context.Background())
+	defer ecancel()
+	ercv, esnd := pipe.New[error](ectx, capacity)
+	e1, e2 := errors.New("e1"), errors.New("e2")
+	ewant := []error{nil, e1, nil, nil, e2}
+	for _, v := range ewant {
+		esnd <- v
+	}
+	synctest.Wait()
+	for _, v := range ewant {
+		if got := <-ercv; got != v {
+			return false
+		}
+	}
 	return true
 }
 
@@ -295,6 +311,35 @@ func backlogPlan(rng *rand.Rand) string {
 			p = append(p, 'S')
 		}
 		for i := rng.Intn(b + w + 3); i > 0; i-- {
+			p = append(p, 'R')
+		}
+	}
+	switch rng.Intn(3) {
+	case 0:
+		p = append(p, 'C')
+	case 1:
+		p = append(p, 'X')
+	}
+	return string(p)
+}
+
+// burstPlan: a backlog beyond any plausible internal threshold, drained completely, then the channel is used again
+// (whatever the queue releases or recycles when it runs empty, the next value goes through as the first one did)
+func burstPlan(rng *rand.Rand) string {
+	p := []byte{}
+	b := []int{130, 257, 300, 520, 1030}[rng.Intn(5)] + rng.Intn(9)
+	for i := 0; i < b; i++ {
+		p = append(p, 'S')
+	}
+	for i := 0; i < b+1; i++ {
+		p = append(p, 'R')
+	}
+	for cycle := 1 + rng.Intn(3); cycle > 0; cycle-- {
+		w := 1 + rng.Intn(5)
+		for i := 0; i < w; i++ {
+			p = append(p, 'S')
+		}
+		for i := 0; i < w+1; i++ {
 			p = append(p, 'R')
 		}
 	}
@@ -454,6 +499,15 @@ func TestC08(t *testing.T) {
 		capacity := rng.Intn(4)
 		plan := backlogPlan(rng)
 		pump("backlog", capacity, plan)
+	}
+	nBurst := 4
+	if thorough {
+		nBurst = 30
+	}
+	for k := 0; k < nBurst; k++ {
+		capacity := rng.Intn(4)
+		plan := burstPlan(rng)
+		pump("burst", capacity, plan)
 	}
 	if !pipe.VerifQueueAvailable {
 		nQueue = 0 // the unexported queue functions are not what the wrappers expect: pump layer only
